@@ -21,6 +21,11 @@ type Harness struct {
 	// (outcome class, used for vacuity / determinism checks) and a non-empty
 	// violation message when the property is violated in this execution.
 	Body func() (obs string, violation string)
+	// RunOnce, when set, replaces the cooperative scheduler: it must execute
+	// one complete execution that follows prefix and then takes choice 0
+	// everywhere, and return its decision record (used by engine E1q, which
+	// finds the enabled actions by quiescence detection instead).
+	RunOnce func(prefix []int) (x *Exec, obs string, violation string)
 }
 
 // Result summarises an exploration.
@@ -55,6 +60,10 @@ type outcome struct {
 }
 
 func runOnce(h *Harness, prefix []int) outcome {
+	if h.RunOnce != nil {
+		x, obs, vio := h.RunOnce(prefix)
+		return outcome{x, obs, vio}
+	}
 	var obs, vio string
 	hz := h.Horizon
 	if hz == 0 {
